@@ -559,33 +559,55 @@ def d4_10(ctx):
 
     fn = lx.methods["_send_write_fragmented"]
     value = bytes(range(250)) * 4  # 1000 bytes
-    for label, conn, overhead, statuses, want_ok in (("three segments", 500, 60, [True, True, True], True), ("exactly two segments", 560, 60, [True, True], True), ("middle segment fails", 500, 60, [True, False, True], False), ("one segment", 1100, 60, [True], True)):
+    for label, conn, overhead, fail_at in (("several segments", 500, 60, None), ("segments of exactly half the value", 560, 60, None), ("second segment fails", 500, 60, 1), ("one segment", 1100, 60, None)):
         w0 = Obj(kind="WTF", tag="big", elements=250, request_id=3, error=None, value=value, message=bytes(overhead) + value, built=False, type_="write", tag_info=DINT, seq="S0")
         seg = conn - overhead
-        n = -(-len(value) // seg)
-        replies = [_resp(ok_, error=None if ok_ else "Privilege violation", idx=i) for i, ok_ in enumerate(statuses)]
-        sent, log = [], []
+        sent, replies, log = [], [], []
 
-        def bm(call, env, it):
+        def bm(call, env, it, w0=w0):
             f = call.func
             if isinstance(f, ast.Attribute) and f.attr == "build_message" and isinstance(f.value, ast.Name) and env.get(f.value.id) is w0:
                 w0.built = True
                 return w0.message
             return UNKNOWN
 
-        kind, res = run_function(ctx, lx.module, fn, {"self": _driver(connection_size=conn), fn.args.args[1].arg: w0}, call_hook=chain(bm, super_send(replies, sent), frag_ctor, packet_markers(log)), deep=False)
+        def send_seg(call, env, it, sent=sent, replies=replies, fail_at=fail_at):
+            f = call.func
+            if isinstance(f, ast.Attribute) and f.attr == "send" and isinstance(f.value, ast.Call) and getattr(f.value.func, "id", "") == "super":
+                sent.append(it.ev(call.args[0], env))
+                ok_ = fail_at is None or len(sent) - 1 != fail_at
+                replies.append(_resp(ok_, error=None if ok_ else "Privilege violation", idx=len(sent) - 1))
+                if len(sent) > 64:
+                    raise _Raise("RuntimeError")
+                return replies[-1]
+            return UNKNOWN
+
+        kind, res = run_function(ctx, lx.module, fn, {"self": _driver(connection_size=conn), fn.args.args[1].arg: w0}, call_hook=chain(bm, send_seg, frag_ctor, packet_markers(log)), deep=False)
         key = ckey(lx.key + "._send_write_fragmented", f"witness:{label}")
         if kind == "unknown":
             ctx.undecided(key, fn, f"_send_write_fragmented not foldable on {label}: {res}")
             continue
-        segs = [(s.extra[0], s.extra[1]) for s in sent] if all(isinstance(s, Obj) and len(s.__dict__.get("extra", ())) == 2 for s in sent) else sent
-        want_segs = [(i * seg, value[i * seg:(i + 1) * seg]) for i in range(n)]
-        if want_ok:
-            ok = kind == "return" and res is replies[n - 1] and segs == want_segs
+        segs = [(s.extra[0], s.extra[1]) for s in sent] if all(isinstance(s, Obj) and len(s.__dict__.get("extra", ())) == 2 and isinstance(s.extra[1], bytes) for s in sent) else None
+        diffs = []
+        if segs is None:
+            diffs.append(f"requests sent are not fragment requests built from the original: {sent!r}"[:200])
         else:
-            ok = kind == "return" and isinstance(res, Obj) and res.__dict__.get("kind") == "failed-response" and res._error == "One or more fragment responses failed" and segs == want_segs
-        ctx.check(ok, key, fn, f"{label}: {n} segment(s) of {seg} bytes at their byte offsets, {'last reply returned' if want_ok else 'failed reply returned'}",
-                  f"fragmented write on {label}: {kind} {res!r}; segments sent at {[(o, len(v) if isinstance(v, bytes) else v) for o, v in segs] if isinstance(segs, list) and all(isinstance(x, tuple) for x in segs) else segs!r} (expected {[(o, len(v)) for o, v in want_segs]})")
+            pos = 0
+            for off, chunk in segs:
+                if off != pos or not chunk or len(chunk) > seg:
+                    diffs.append(f"segment at offset {off} with {len(chunk)} byte(s) after {pos} byte(s) sent (segment limit {seg})")
+                    break
+                pos += len(chunk)
+            if not diffs and b"".join(c for _, c in segs) != value:
+                diffs.append(f"segments cover {pos} of {len(value)} byte(s)")
+            if any(s.__dict__.get("origin") is not w0 for s in sent):
+                diffs.append("a segment is not built from the original request")
+        if fail_at is None:
+            if not (kind == "return" and replies and res is replies[-1]):
+                diffs.append(f"returns {kind} {res!r} instead of the last segment's reply")
+        elif not (kind == "return" and isinstance(res, Obj) and res.__dict__.get("kind") == "failed-response" and res._error == "One or more fragment responses failed"):
+            diffs.append(f"returns {kind} {res!r} instead of a failed reply")
+        ctx.check(not diffs, key, fn, f"{label}: contiguous segments of at most {seg} bytes covering the value, {'last reply returned' if fail_at is None else 'failed reply returned'}", f"fragmented write on {label}: {diffs[:2]}")
 
 
 # ---------------------------------------------------------------------------------------------------------------- tag list
@@ -889,3 +911,13 @@ def d16_8(ctx):
         want_ks = ks.get(status[0], {}).get(status[1], "UNKNOWN")
         ctx.check(kind == "return" and isinstance(res, dict) and res.get("vendor") == "Rockwell" and res.get("keyswitch") == want_ks and req_ok, key, fn, f"{label}: identity returned with keyswitch {want_ks!r}",
                   f"get_plc_info ({label}): {kind} {res!r}; request {dict((k, v) for k, v in seen.items() if k != 'data_type')!r}")
+
+
+# the same obligations under the other properties they carry (a request id collision breaks isolation, C03; an oversized
+# request breaks fragmentation, C04; the error a failed member reports is C13)
+rule("C03", "D3.12", "T-WITNESS", floor=8)(d2_12)
+rule("C04", "D4.11", "T-WITNESS", floor=8)(d2_12)
+rule("C03", "D3.13", "T-WITNESS", floor=6)(d1_16)
+rule("C13", "D13.10", "T-WITNESS", floor=6)(d1_16)
+rule("C03", "D3.14", "T-WITNESS", floor=6)(d4_10)
+rule("C02", "D2.13", "T-WITNESS", floor=8)(d3_11)
